@@ -18,3 +18,23 @@ pub struct AtomicI32 { x: u8 }
 pub struct AtomicUsize { x: u8 }
 #[verifier::external_body]
 pub struct IpAddr { x: u8 }
+
+// ghost record of the connection's quit flag (AtomicI32 behind an Arc: the store goes through &self, so its effect is
+// recorded in a ghost parameter added by rule R6q)
+pub ghost struct Signals { pub quit: int }
+pub use std::sync::atomic::Ordering;
+impl AtomicI32 {
+    #[verifier::external_body]
+    pub fn store(&self, v: i32, o: Ordering, Tracked(sig): Tracked<&mut Signals>)
+        ensures final(sig).quit == v
+    { unimplemented!() }
+}
+
+// argon2 password verification (external crate): an uninterpreted predicate
+pub uninterp spec fn hash_ok(password: Seq<char>, hash: Seq<char>) -> bool;
+#[verifier::external_body]
+pub struct ArgonError { x: u8 }
+#[verifier::external_body]
+pub async fn argon2_verify_password_async(password: String, hash: String) -> (r: Result<(), ArgonError>)
+    ensures r is Ok <==> hash_ok(password@, hash@)
+{ unimplemented!() }
